@@ -299,7 +299,11 @@ func (ex *Executor) matchRow(st *State, fr *Frame, r *Row, evs []*Event) (*Term,
 					if k < 0 {
 						// the captured variable was a receiver or parameter that has been renamed since
 						if cf := ex.P.Funcs[e.Fn]; cf != nil {
-							if nn := ex.renamedParam(cf, nm); nn != "" {
+							nn := ex.renamedParam(cf, nm)
+							if nn == "" {
+								nn = ex.renamedLocal(cf, nm)
+							}
+							if nn != "" {
 								for i, n := range e.ArgNames {
 									if n == nn {
 										k = i
